@@ -133,6 +133,9 @@ def body():
     for k, case, evs in execs[:1] + execs[len(execs) // 2:len(execs) // 2 + 1]:
         c.sample({"case": {kk: (vv if len(str(vv)) < 80 else str(vv)[:77] + "...") for kk, vv in case.items()},
                   "events": [json.dumps({kk: (vv if kk not in ("T", "in") else "<%d>" % len(vv)) for kk, vv in e.items()})[:200] for e in evs]})
+    # the hash / MAC / PBKDF2 command line tools (tools/clilib.py, spec/Cli.tla) on files of sizes around the padding and buffer boundaries
+    import clilib
+    clilib.judge_sessions(c, clilib.sessions(c, "C03", ["digest"], "c03", [0, 1, 55, 56, 63, 64, 65, 119, 120, 4095, 4096, 4097, 8191, 8192, 8193, 10000] + ([] if c.quick else [65535, 65536, 65537, 1000000])), "c03")
     return c.finish(
         rule="cases = (algorithm, API path, key/salt/output length class, chunking); chunkings are the 256 behaviours TLC generates from Stream.tla scaled to "
              "the real block size, plus every length 0..3*block+1 with splits; distinct = distinct case keys; every execution is judged by TLC recomputing the "
